@@ -22,7 +22,7 @@ var R = hx.NewRecorder("C15", "cases = (endpoint kind: GMSSL client | GMSSL-only
 	"oracle = Handshake() returns (quiescence of the in-memory transport turns waiting into EOF; a read-after-EOF counter catches spinning), returns an error for every true deviation, HandshakeComplete stays false, no panic; legal variations (fragmented or coalesced messages, unknown ticket) must still succeed; non-trivial = deviation applied after at least one valid message or in the first message; distinct by hash of the plan")
 
 func TestMain(m *testing.M) {
-	R.Require("dev:cert_list", "peer_pressed_on_after_alert", "endpoint:gmclient", "endpoint:gmserver", "endpoint:autoserver", "endpoint:tlsserver", "endpoint:tlsclient", "vers_sweep_done", "dev:omit", "dev:repeat", "dev:retype", "dev:reorder", "dev:truncate", "dev:len_field", "dev:split", "dev:coalesce",
+	R.Require("dev:cke_ciphertext_byte", "dev:cert_list", "peer_pressed_on_after_alert", "endpoint:gmclient", "endpoint:gmserver", "endpoint:autoserver", "endpoint:tlsserver", "endpoint:tlsclient", "vers_sweep_done", "dev:omit", "dev:repeat", "dev:retype", "dev:reorder", "dev:truncate", "dev:len_field", "dev:split", "dev:coalesce",
 		"dev:oversize", "dev:ccs_early", "dev:appdata_early", "dev:alert_fatal", "dev:unknown_record", "dev:close", "dev:record_overflow", "replay_perturbed", "legal_must_succeed", "cke_1byte", "hostile_suites")
 	for d := 0; d <= 5; d++ {
 		R.Require(fmt.Sprintf("depth:%d", d))
@@ -146,6 +146,9 @@ func planFor(d deviation) (*rgmssl.Plan, *bool, bool, string) {
 				return nil
 			}
 			pos := 4 + d.K%min(len(data)-4, 48)
+			if step == "ClientKeyExchange" {
+				pos = 4 + d.K%(len(data)-4) // anywhere in the SM2 ciphertext: C1, C3 and C2 are all integrity-relevant
+			}
 			nb := d.Val
 			if nb == data[pos] {
 				nb ^= 0x80
@@ -328,6 +331,14 @@ func TestC15_ScriptedDeviations(t *testing.T) {
 			R.Case(false, 0, "unspecified:extra_after_last_message")
 			return
 		}
+		if d.Kind == "inner_byte" && d.Step == "ClientKeyExchange" && *fired {
+			// every byte of the ClientKeyExchange is length framing or part of the SM2 ciphertext of the pre-master
+			// secret (C1, C3, C2): whatever is changed, decryption must fail (GM/T 0003.4) and with it the handshake,
+			// even though the scripted client carries on with the genuine secret and a consistent transcript
+			judge(t, r, false, true, desc)
+			R.Case(true, hx.HashKey("dev", ep, suite, clientAuth, fmt.Sprintf("%+v", d)), "endpoint:"+ep, "dev:inner_byte", "dev:cke_ciphertext_byte")
+			return
+		}
 		if d.Kind == "inner_byte" {
 			// a changed content byte may still be a well-formed message with another meaning (the scripted peer
 			// hashes what it sent): only the universal invariants apply
@@ -473,6 +484,47 @@ func TestC15_KeyExchangeBodies(t *testing.T) {
 			R.Case(true, hx.HashKey("cke", i, mode), "cke_1byte", "endpoint:"+mode)
 		}
 	}
+}
+
+// every byte of the ClientKeyExchange (framing and SM2 ciphertext C1, C3, C2), changed by a scripted client that is
+// otherwise honest and keeps a consistent transcript and the genuine pre-master secret: the server must fail
+func TestC15_KeyExchangeCiphertext(t *testing.T) {
+	p := tlsx.GetPKI()
+	for _, mode := range []string{"gmserver", "autoserver"} {
+		for _, suite := range []uint16{tlsx.GMECCSM4CBCSM3, tlsx.GMECCSM4GCMSM3} {
+			if !hx.Thorough() && (mode == "autoserver") != (suite == tlsx.GMECCSM4GCMSM3) {
+				continue
+			}
+			n := 200 // upper bound; the loop stops at the real length
+			for pos := 4; pos < n; pos++ {
+				seed := fmt.Sprint("ckb", mode, suite, pos)
+				sc := tlsx.GMServer(p, seed)
+				if mode == "autoserver" {
+					sc = tlsx.AutoServer(p, p.RSASrv, seed)
+				}
+				fired := false
+				plan := &rgmssl.Plan{IgnoreAlerts: pos%2 == 0, Out: func(step string, o rgmssl.Out) []rgmssl.Out {
+					if step == "ClientKeyExchange" {
+						n = len(o.Data)
+						if pos < len(o.Data) {
+							d := append([]byte{}, o.Data...)
+							d[pos] ^= byte(1 << uint(pos%8))
+							o.Data = d
+							fired = true
+						}
+					}
+					return []rgmssl.Out{o}
+				}}
+				r := tlsx.RunAgainstScriptedClient(sc, rgmssl.ClientOpts{Suites: []uint16{suite}}, plan, seed, []byte("x"))
+				if !fired {
+					continue
+				}
+				judge(t, r, false, true, fmt.Sprintf("ClientKeyExchange byte %d of %d changed, mode=%s suite=%x | server hs=%v | client err=%v log=%v", pos, n, mode, suite, r.GM.HSErr, r.PeerErr, r.Peer.Log))
+				R.Case(true, hx.HashKey("ckb", mode, suite, pos), "dev:cke_ciphertext_byte", "endpoint:"+mode)
+			}
+		}
+	}
+	R.Subspace("every byte of the ClientKeyExchange body flipped (quick: 2 of the 4 mode x suite combinations)", 0, true)
 }
 
 // ---- recorded honest flights replayed with one perturbation against all five endpoint kinds
